@@ -145,7 +145,14 @@ func genEnvelope(r *vh.Rng) Case {
 		id := fmt.Sprintf("x%d", fresh)
 		var members []string
 		idv, _ := json.Marshal(id)
-		switch r.Intn(12) {
+		typ := r.Pick([]string{"subscribe", "subscribe", "subscribe", "mutate", "mutate", "unsubscribe", "echo", "url", "frobnicate", "", "Subscribe", "ECHO"})
+		idShape := r.Intn(12)
+		if typ == "mutate" {
+			// a mutation sits in the connection's table only while it runs and leaves it on its own: its id is
+			// never one another envelope may use (no absent / null / shared id)
+			idShape = 11
+		}
+		switch idShape {
 		case 0:
 			members = append(members, `"`+idKey()+`": null`)
 		case 1:
@@ -159,7 +166,6 @@ func genEnvelope(r *vh.Rng) Case {
 		default:
 			members = append(members, `"`+idKey()+`": `+string(idv))
 		}
-		typ := r.Pick([]string{"subscribe", "subscribe", "subscribe", "mutate", "mutate", "unsubscribe", "echo", "url", "frobnicate", "", "Subscribe", "ECHO"})
 		switch r.Intn(10) {
 		case 0:
 			members = append(members, `"`+typeKey()+`": null`)
